@@ -49,6 +49,35 @@ class Gen:
             allv=[]
             for h in hyps: tvars(h,allv)
             self.rules['rule-%d'%i]=(hyps,self.rterm(2,allv))
+    def make_extras(self):
+        """Declarations of the other variable kinds of the translator's dialect (#Variable - element-or-set, split by the
+        converter -, #ElementVariable, #SetVariable, #Symbol) and |- axioms over them.  The goal's proof does not use them;
+        they exercise the converter's scope handling and are exported with the theory."""
+        r=self.rnd
+        amb=r.sample(['xX','yY','zZ'],r.randint(1,3)); ev=['x','y'][:r.randint(0,2)]; sv=['X'][:r.randint(0,1)]
+        sym=r.random()<0.5
+        consts=['#Variable','#ElementVariable','#SetVariable','#Symbol']
+        L=['$v '+' '.join(amb+ev+sv+(['sg0'] if sym else []))+' $.']
+        for v in amb: L.append('%s-is-var $f #Variable %s $.'%(v,v))
+        for v in ev: L.append('%s-is-element-var $f #ElementVariable %s $.'%(v,v))
+        for v in sv: L.append('%s-is-set-var $f #SetVariable %s $.'%(v,v))
+        if sym: L.append('sg0-is-symbol $f #Symbol sg0 $.')
+        if ev: L.append('element-var-is-var $a #Variable x $.')
+        if sv: L.append('set-var-is-var $a #Variable X $.')
+        L.append('var-is-pattern $a #Pattern %s $.'%amb[0])
+        if sym: L.append('symbol-is-pattern $a #Pattern sg0 $.')
+        others=ev+sv+(['sg0'] if sym else [])+['ph0','ph1']
+        ax=[]
+        for i in range(r.randint(1,3)):
+            k=r.randint(0,3)
+            if k==0 and len(amb)>=2:
+                a,b=r.sample(amb,2); t=('\\imp',a,('\\imp',b,a))
+            elif k==1:
+                t=('\\imp',self.rterm(1,amb),self.rterm(1,amb+r.sample(others,1)))
+            else:
+                t=self.rterm(2,amb+r.sample(others,r.randint(0,2)))
+            ax.append('xax-%d $a |- %s $.'%(i,tstr(t)))
+        return consts,L,ax
     def rterm(self,d,leaves,allow_not=None):
         r=self.rnd
         heads=[c for c in self.ctors if True]
@@ -69,9 +98,12 @@ class Gen:
     def header(self):
         L=[]
         consts=['#Pattern','#Notation','|-','\\imp','(',')']+list(self.ctors)+list(self.notations)+(['\\app'] if self.use_app else [])
+        ex=getattr(self,'extras',None)
+        if ex: consts+=ex[0]
         L.append('$c '+' '.join(consts)+' $.')
         L.append('$v '+' '.join(self.vars)+' $.')
         for v in self.float_order: L.append('%s-is-pattern $f #Pattern %s $.'%(v,v))
+        if ex: L+=ex[1]
         L.append('imp-is-pattern $a #Pattern ( \\imp ph0 ph1 ) $.')
         if self.use_app: L.append('app-is-pattern $a #Pattern ( \\app ph0 ph1 ) $.')
         for c,a in self.ctors.items(): L.append('%s-is-pattern $a #Pattern %s $.'%(c[1:],tstr((c,)+a)))
@@ -84,6 +116,7 @@ class Gen:
         for l,t in self.axioms.items(): L.append('%s $a |- %s $.'%(l,tstr(t)))
         for l,(hs,t) in self.rules.items():
             L.append('${ '+'\n   '.join('%s.%d $e |- %s $.'%(l,i,tstr(h)) for i,h in enumerate(hs))+'\n   %s $a |- %s $. $}'%(l,tstr(t)))
+        if ex: L+=ex[2]
         return '\n'.join(L)
     # ---- assertions table: label -> (hyps terms, conclusion term)
     def assertions(self):
@@ -192,8 +225,9 @@ class Gen:
         for i in range(len(rpn)): count[tuple(rpn[starts[i]:i+1])]+=1
         emit_range(0,len(rpn)-1)
         return '( '+' '.join(labels)+' ) '+''.join(out)
-def make(rnd, zmode='all'):
+def make(rnd, zmode='all', extras=False):
     g=Gen(rnd)
+    if extras: g.extras=g.make_extras()
     nleaves=rnd.choice([0,1,2,2,3,3]); leaves=rnd.sample(g.vars,min(nleaves,g.nvars))
     node=g.derive(rnd.randint(2,4),leaves); goal=g.concl(node)
     rpn=[]; g.emit(node,rpn)
